@@ -128,7 +128,7 @@ impl Property for C08 {
         vec![
             Phase::Random {
                 name: "large-files",
-                cases: tier.pick(500, 8_000),
+                cases: tier.pick(500, 20_000),
                 strat: Arc::new(|| {
                     (config_any(CfgParams { max_files: 4, sizes: big_sizes(), comp: comp_fast(), sign_prob: 0.1, file_kinds: false, force_large_prob: 0.1, rich_meta: false }), proptest::collection::vec(op_cheap(), 0..3))
                         .prop_map(|(mut cfg, ops)| {
@@ -142,7 +142,7 @@ impl Property for C08 {
             },
             Phase::Random {
                 name: "all-levels-small",
-                cases: tier.pick(1_500, 30_000),
+                cases: tier.pick(1_500, 100_000),
                 strat: Arc::new(|| {
                     (config_any_reuse(CfgParams { max_files: 5, sizes: size_small(), comp: comp_any(true), sign_prob: 0.1, file_kinds: true, force_large_prob: 0.1, rich_meta: true }), proptest::collection::vec(op_cheap(), 0..3), prop_oneof![4 => Just(0u8), 1 => Just(1u8), 1 => Just(2u8)])
                         .prop_map(|(mut cfg, ops, stale_sig)| {
